@@ -293,6 +293,21 @@ func runImports(a *runArgs, prop string) error {
 		} else if msg := c09TypeCheck(run.outputs); msg != "" && !strings.Contains(msg, "declared and not used") {
 			if strings.Contains(msg, "already declared through import") || strings.Contains(msg, "redeclared") {
 				collision = true // compared with the model's prediction inside Coq (known finding class 2 when it agrees)
+				// the only listed way to a collision is an identifier declared after a write of the same
+				// file fixed its import names; without that the collision is a violation in its own right
+				late := false
+				written := map[int]bool{}
+				for _, o := range ops {
+					if o.K == "write" {
+						written[o.F] = true
+					}
+					if o.K == "declare" && len(written) > 0 {
+						late = true
+					}
+				}
+				if !late {
+					m.Direct = append(m.Direct, directViolation{Case: idx, What: "two names of one file collide although every identifier was declared before the first write: " + msg, Replay: c})
+				}
 			} else {
 				m.Direct = append(m.Direct, directViolation{Case: idx, What: "the written files do not type-check together: " + msg, Replay: c})
 			}
